@@ -691,3 +691,83 @@ def c16_child_summary(chk, ex, limit):
             goal = z3.If(slen > limit, z3.And(rc if rc is not None else F, big_payload), z3.And(z3.Not(rc) if rc is not None else F, ops.values_equal(st, payload, ser_str), z3.BoolVal(not summ)))
             P(chk, ex, path, "C16.child.summary_only", is_succ, z3.And(goal, sync_term(c), z3.Not(is_none(upd(st, c, "context_options")))),
               f"serialized result longer than {limit} => only the summary (or '') is recorded with replay_children=True; otherwise the serialized result with replay_children=False")
+
+
+# ------------------------------------------------------------------------------------------------ C02 (relational lemmas over the case tables)
+def c02_value(chk, ex):
+    """completing run vs replay of the record B1(update): same value.  Facts taken from the paths of the REAL code:
+    the value returned is the user function's value `raw`; the accepted SUCCEED update carries payload = serialize(S, raw) with
+    S = configured serdes or the default; on replay the terminal short-circuit (C01) returns deserialize(S', result) with S' computed
+    by the same expression.  The lemma needs S == S' (proved here) and the round-trip hypothesis RT(S, raw) (C15 for the default)."""
+    eng, kind = ex.eng, ex.kind
+    cfg = ex.inputs["cfg"]
+    sf, dflt = SERDES_FIELD[kind]
+    deser = z3.Function("deserialize", z3.IntSort(), z3.StringSort(), ops.ANY)
+    for path in ex.paths:
+        k, v, st = path
+        uc = user_calls(st)
+        if k != "val" or not uc:
+            continue
+        term = [(j, c) for j, c in cps(st, "ok") if j > uc[-1][0]]
+        if not term:
+            continue  # summary re-traversal: nothing is recorded, replay re-runs the body (C16)
+        j, c = term[-1]
+        raw = uc[-1][1].d["result"]
+        ser = ser_of(st, raw)
+        sid_replay = serdes_id(st, st.get(cfg)[sf], dflt)
+        payload = upd(st, c, "payload")
+        if kind == "child":
+            co = strip_opt(upd(st, c, "context_options"))
+            rc = zbool(st.get(co)["replay_children"]) if isinstance(co, Ref) else F
+        else:
+            rc = F
+        if ser is None:
+            P(chk, ex, path, f"C02.{kind}.value", None, F, "a returned value was serialized for its record")
+            continue
+        sd, s_str = ser
+        same_serdes = z3.IntVal(sd.oid) == sid_replay if isinstance(sd, Ref) else F
+        returned_raw = z3.BoolVal(is_sym(v, "any") and z3.eq(v.t, raw.t))
+        # B1: record' = SUCCEEDED with result = payload (None when the payload is empty: the wire form omits it)
+        rt = deser(sid_replay, s_str.t) == raw.t                       # hypothesis RT(S, raw)
+        nonempty = z3.Length(s_str.t) > 0                              # C15.serialize.nonempty for the default serializer; custom SerDes: hypothesis
+        replay_value = deser(sid_replay, ops.zstr(payload)) if not isinstance(payload, Opt) else None
+        goal = z3.And(returned_raw, same_serdes, z3.Or(rc, z3.And(ops.values_equal(st, payload, s_str), z3.Implies(z3.And(rt, nonempty), replay_value == raw.t))) if replay_value is not None else F)
+        P(chk, ex, path, f"C02.{kind}.value", None, goal,
+          "the value delivered on the completing run is the user function's value; its record carries serialize(S, value) and the replay deserializes with the same S: under RT(S, value) the replay delivers an equal value")
+
+
+def c02_error(chk, ex):
+    """completing run vs replay for a final failure: same exception class and fields"""
+    eng, kind = ex.eng, ex.kind
+    for path in ex.paths:
+        k, v, st = path
+        uc = user_calls(st)
+        if k != "raise" or not uc:
+            continue
+        fails = [(j, c) for j, c in cps(st, "ok") if j > uc[-1][0] and eng.feasible(st, action_is(eng, st, c, "FAIL"))]
+        if not fails:
+            continue
+        j, c = fails[-1]
+        err = strip_opt(upd(st, c, "error"))
+        is_fail = action_is(eng, st, c, "FAIL")
+        # replay on B1(update) = FAILED with error = u.error raises CallableRuntimeError(fields of that error object)  (C01.<kind>.terminal_skips.failed)
+        first_is_cre = raised_by_handler(v, ("CallableRuntimeError",))
+        if first_is_cre:
+            goal = cre_matches_error(st, v, F, err) if isinstance(err, Ref) else F
+            regions = {}
+        else:
+            # the first run delivered something else than what the replay will deliver
+            inv_carve = eng.symexc_isa(v, eng.program.cls("exceptions.InvocationError"), st) if isinstance(v, Ref) and v.cls == "symexc" else z3.BoolVal(raised_by_handler(v, ("StepInterruptedError",)))
+            goal = inv_carve  # U: invocation-level errors are not observations of user code (they terminate the invocation)
+            regions = {"first_failure_reraises_original": z3.BoolVal(kind == "wfc")}
+        P2(chk, ex, path, f"C02.{kind}.error", is_fail, goal,
+           "the final error delivered on the failing run is the CallableRuntimeError built from the recorded error object - exactly what every replay raises (invocation-level errors excepted: they end the invocation)", regions)
+
+
+def P2(chk, ex, path, name, pre, goal, desc, regions):
+    k, v, st = path
+    pre = [pre] if pre is not None else []
+    goal = z3.BoolVal(goal) if isinstance(goal, bool) else goal
+    return chk.prove(name, list(st.pc) + pre, goal, desc=desc, describe=ex.describe_fn(path) if hasattr(ex, "describe_fn") else describe_path(ex, st),
+                     replay=ex.replay_fn(path) if hasattr(ex, "replay_fn") else None, regions=regions,
+                     sample=f"{ex.kind}: first-run outcome={k}:{exc_class(v)} vs replay of the recorded FAIL")
